@@ -186,6 +186,11 @@ def sub_exps(e):
             yield ('rep', e[1], None, False, e[4])
         for s in sub_exps(e[4]):
             yield ('rep', e[1], e[2], e[3], s)
+    elif k == 'assoc':
+        yield e[3]
+        yield ('rep', True, e[2], False, e[3])
+        for s in sub_exps(e[3]):
+            yield ('assoc', e[1], e[2], s)
     elif k == 'look':
         yield e[2]
         for s in sub_exps(e[2]):
@@ -270,6 +275,8 @@ def kinds_signature(c: Case) -> str:
             k = kind(x)
             if k == 'rep':
                 k = 'rep' + ('+' if x[1] else '') + ('sep' if x[2] is not None else '')
+            if k == 'assoc':
+                k = 'leftjoin' if x[1] else 'rightjoin'
             if k == 'look':
                 k = 'neglook' if x[1] else 'look'
             if k == 'named' and x[1]:
